@@ -204,8 +204,15 @@ def nat_lookahead(h):
                 desc = {'name': 'p', 'resources': [{'name': 'r', 'path': 'r.csv', 'schema': {'fields': [
                     {'name': 'a', 'type': 'integer'}, {'name': 'b', 'type': 'string'}]}}]}
                 if case == 'load-limit_rows':
-                    lim = 25
-                    got = h.run(lambda: Flow(load((desc, [source()]), limit_rows=lim), sink).process())
+                    # a small limit, one in the middle of the data, and a "cap" far beyond it: the limit bounds what is delivered,
+                    # it is not a licence to read that many rows ahead
+                    for lim in (25, N // 2, 10 ** 6):
+                        pulled[0], delivered[0] = 0, 0
+                        got = h.run(lambda: Flow(load((desc, [source()]), limit_rows=lim), sink).process())
+                        worst[0] = max(worst[0], pulled[0] - delivered[0])
+                        h.check(got[0] == 'ok' and worst[0] <= BOUND and delivered[0] == min(lim, N), 'lookahead:' + case, (case, N, lim),
+                                'look-ahead <= %d, %d rows delivered' % (BOUND, min(lim, N)), (got[:2], worst[0], delivered[0]))
+                    continue
                 elif case == 'load-pair':
                     got = h.run(lambda: Flow(load((desc, [source()])), sink).process())
                 else:
@@ -581,3 +588,51 @@ def nat_stats_of_several_dumpers(h):
                         dict(count_of_rows=last['count_of_rows'], hash=last['hash']), dict(stats))
         finally:
             shutil.rmtree(d, ignore_errors=True)
+
+
+
+def nat_lookahead_sql_source(h):
+    """bounded: a database table as the source of load (format='sql'): rows are fetched as they are delivered -- what is read ahead
+    is the inference sample plus the driver's fetch batch, whatever the size of the table.  The rows the database has handed out
+    are counted by an SQL function the query goes through."""
+    import sqlite3
+    from sqlalchemy import event
+    from sqlalchemy.engine import Engine
+    from dataflows import Flow, load
+    pulled = [0]
+
+    def tick(value):
+        pulled[0] += 1
+        return value
+
+    def register(dbapi_connection, _):
+        if isinstance(dbapi_connection, sqlite3.Connection):
+            dbapi_connection.create_function('tick', 1, tick)
+    event.listen(Engine, 'connect', register)
+    BOUND = 1000 + 1000 + 100
+    try:
+        for size in ((3000, 9000) if h.tier == 'quick' else (3000, 12000, 48000)):
+            d = tempfile.mkdtemp(prefix='c06sql_')
+            try:
+                db = os.path.join(d, 'source.db')
+                conn = sqlite3.connect(db)
+                conn.execute('create table data (id integer primary key, name text, amount integer)')
+                conn.executemany('insert into data values (?, ?, ?)', ((i, 'name-%d' % i, i * 3) for i in range(size)))
+                conn.commit()
+                conn.close()
+                pulled[0] = 0
+                seen = dict(delivered=0, worst=0)
+
+                def sink(rows):
+                    for row in rows:
+                        seen['worst'] = max(seen['worst'], pulled[0] - seen['delivered'])
+                        seen['delivered'] += 1
+                        yield row
+                got = h.run(lambda: Flow(load('sqlite:///' + db, format='sql', name='data', query='select tick(id) as id, name, amount from data'),
+                                         sink).process())
+                h.check(got[0] == 'ok' and seen['delivered'] == size and seen['worst'] <= BOUND, 'lookahead:sql-source', size,
+                        'look-ahead <= %d, %d rows' % (BOUND, size), (got[:2], seen))
+            finally:
+                shutil.rmtree(d, ignore_errors=True)
+    finally:
+        event.remove(Engine, 'connect', register)
